@@ -62,6 +62,49 @@ def handle_task(handle):
     return None
 
 
+SOURCE_EXCEPTIONS = ['OperationalError', 'OSError', 'Exception', 'RuntimeError']
+
+
+def make_exception(name):
+    import sqlite3
+    if name == 'OperationalError':
+        return sqlite3.OperationalError('database is locked')
+    if name == 'OSError':
+        return OSError(5, 'Input/output error')
+    if name == 'RuntimeError':
+        return RuntimeError('dequeued_url listener failed')
+    return Exception('check_out failed')
+
+
+def make_url_item_source(real, spec):
+    """The real URLItemSource over a stub URL table: `n` todo records, then NotFound - or, when the case says the
+    source fails, the exception `spec['exc']` from the check_out(todo) or the check_out(error) call."""
+    from wpull.pipeline.session import URLItemSource
+    from wpull.pipeline.item import URLRecord, Status
+    from wpull.database.base import NotFound
+
+    class Table:
+        def check_out(self, filter_status, level=None):
+            if filter_status == Status.todo:
+                if real.given < real.n:
+                    rec = URLRecord()
+                    rec.url = 'item%d' % real.given
+                    real.given += 1
+                    return rec
+                if real.src_fail and spec.get('at', 'todo') == 'todo':
+                    real.src_raised = True
+                    raise make_exception(spec['exc'])
+                raise NotFound()
+            if real.src_fail:
+                real.src_raised = True
+                raise make_exception(spec['exc'])
+            raise NotFound()
+
+    class Session:
+        factory = {'URLTable': Table()}
+    return URLItemSource(Session())
+
+
 class TaskError(Exception):
     pass
 
@@ -78,7 +121,7 @@ class BusyLoop(BaseException):
 class Real:
     """One real Pipeline under manual step control."""
 
-    def __init__(self, n, k, conc, src_fail):
+    def __init__(self, n, k, conc, src_fail, url_source=None):
         from wpull.pipeline.pipeline import Pipeline, ItemSource, ItemTask
         self.n, self.k, self.src_fail = n, k, src_fail
         self.log = []            # (task, item, 's'|'e')
@@ -96,6 +139,10 @@ class Real:
         self.busy = False
         real = self
 
+        self.url_src = None
+        if url_source is not None:
+            self.url_src = make_url_item_source(self, url_source)
+
         class Source(ItemSource):
             @asyncio.coroutine
             def get_item(self):
@@ -106,6 +153,10 @@ class Real:
                     yield from real.src_fut
                 finally:
                     real.src_fut = None
+                if real.url_src is not None:
+                    # the REAL wpull.pipeline.session.URLItemSource over a stub URL table
+                    item = yield from real.url_src.get_item()
+                    return item
                 if real.given < real.n:
                     real.given += 1
                     return 'item%d' % (real.given - 1)
@@ -120,7 +171,7 @@ class Real:
 
             @asyncio.coroutine
             def process(self, item):
-                i = int(item[4:])
+                i = int((item if isinstance(item, str) else item.url_record.url)[4:])
                 ev = (self.ix, i, 's')
                 real.log.append(ev)
                 real.all_log.append(ev)
@@ -297,7 +348,7 @@ class Real:
         entries = sorted(q._queue._queue)
         from wpull.pipeline.pipeline import POISON_PILL
         pills = len([e for e in entries if e[2] is POISON_PILL])
-        items = [e[2] for e in entries if e[2] is not POISON_PILL]
+        items = [e[2] if isinstance(e[2], str) else e[2].url_record.url for e in entries if e[2] is not POISON_PILL]
         if pills and items and entries[0][2] is not POISON_PILL:
             # an item ahead of a poison pill: not representable in the model's queue (pills first)
             items = ['item!' + items[0][4:]] + items[1:]
@@ -317,10 +368,11 @@ class Real:
         return st + ';' + self.main_status() + ';' + ''.join(self.enabled())
 
 
-def run_real(n, k, conc, src_fail, policy_or_actions, rng=None, inj=None, cont=None, picker=None, cont_inj=None):
+def run_real(n, k, conc, src_fail, policy_or_actions, rng=None, inj=None, cont=None, picker=None, cont_inj=None,
+             url_source=None):
     """Run the real pipeline.  `policy_or_actions` is either a list of actions (replay) or a policy name;
     returns dict(actions, steps=[(events, digest)], …)."""
-    real = Real(n, k, conc, src_fail)
+    real = Real(n, k, conc, src_fail, url_source)
     steps = []
     actions = []
     fixed = policy_or_actions if isinstance(policy_or_actions, list) else None
@@ -492,7 +544,7 @@ def oracle(ctx, case, res):
                 ctx.fail('item-lost', 'process', case,
                          'process() returned without a stop but only items %r of %d went through all tasks' % (sorted(complete), n))
     if res['main'] == 'x':
-        if res['error'] not in ('TaskError', 'SourceError'):
+        if res['error'] not in ('TaskError', 'SourceError') + tuple(SOURCE_EXCEPTIONS):
             ctx.fail('spurious-error', 'process', case, 'process() raised %s although nothing failed' % res['error'])
     if res['stop_called']:
         # after stop(): no further get_item call, no item started that was not in flight
@@ -645,6 +697,24 @@ def gen_pause_failure(ctx, rng, count):
         case = {'n': n, 'k': k, 'conc': conc, 'src_fail': False}
         res = run_real(n, k, conc, False, [], picker=picker)
         res['variant'] = variant
+        out.append((case, res))
+    return out
+
+
+def gen_url_source(ctx, rng, count):
+    """The REAL URLItemSource (wpull/pipeline/session.py) over a stub URL table as the pipeline's source: n records,
+    then NotFound - or a check_out failure (sqlite3.OperationalError, OSError, Exception, RuntimeError) raised by the
+    check_out(todo) or the check_out(error) call."""
+    out = []
+    for _ in range(count):
+        n = rng.choice([0, 1, 2, 3, 4])
+        k = rng.choice([1, 1, 2])
+        conc = rng.choice([1, 1, 2, 3])
+        src_fail = rng.random() < 0.7
+        spec = {'exc': rng.choice(SOURCE_EXCEPTIONS), 'at': rng.choice(['todo', 'error'])}
+        inj = rng.choice([{'max': 0}, {'max': 0}, {'max': 1, 'C': 0.05}, {'max': 0, 'X': 0.05}])
+        case = {'n': n, 'k': k, 'conc': conc, 'src_fail': src_fail, 'url_source': spec}
+        res = run_real(n, k, conc, src_fail, rng.choice(POLICIES), rng, inj, url_source=spec)
         out.append((case, res))
     return out
 
@@ -828,6 +898,191 @@ def run_free(case):
         real.close()
 
 
+# ------------------------------------------------------------------ Application level (wpull/application/app.py, builder.py)
+# What the property says about the built pipeline series: a pipeline that takes new work items (its source is not the
+# one-shot housekeeping AppSource) must be skippable, so that Application.run() does not start it once a stop was
+# requested (model: Wpull.Pipeline.appRun, theorem app_no_new_work_after_stop).
+EXPECTED_PIPELINES = [('AppSource', False), ('URLItemSource', True), ('AppSource', True), ('QueuedFileSource', True),
+                      ('AppSource', False)]
+
+
+def app_site(n_pages, fanout):
+    import appsim
+    pages = {}
+    names = ['/'] + ['/p%d.html' % i for i in range(1, n_pages)]
+    for ix, name in enumerate(names):
+        kids = names[ix * fanout + 1: ix * fanout + 1 + fanout]
+        pages[name] = appsim.Page(200, appsim.html(links=kids, title='page %d' % ix))
+    return {'a.test': pages}
+
+
+def run_app(case):
+    """Build and run the whole application (Builder(args).build(), Application.run()) socket-free; instrument
+    every pipeline's ItemSource.get_item, the pipeline_begin events and Application.stop()."""
+    import appsim
+    events = []
+    info = {'pipelines': None, 'table_raised': 0, 'stop_calls': 0}
+    holder = {}
+
+    def on_app(app, builder):
+        holder['app'] = app
+        pipes = list(app._pipeline_series.pipelines)
+        info['pipelines'] = [(type(p._producer._item_source).__name__, bool(p.skippable),
+                              [type(t).__name__ for t in p.tasks]) for p in pipes]
+        for ix, p in enumerate(pipes):
+            src = p._producer._item_source
+            orig = src.get_item
+
+            def make(ix, orig):
+                @asyncio.coroutine
+                def get_item():
+                    events.append(('call', ix))
+                    item = yield from orig()
+                    events.append(('item' if item else 'none', ix))
+                    return item
+                return get_item
+            src.get_item = make(ix, orig)
+        app.event_dispatcher.add_listener(app.Event.pipeline_begin, lambda p: events.append(('begin', pipes.index(p))))
+        orig_stop = app.stop
+
+        def stop():
+            info['stop_calls'] += 1
+            if info['stop_calls'] == 1:
+                events.append(('stop',))
+            return orig_stop()
+        app.stop = stop
+        tf = case.get('table_fail')
+        startup_stop = bool(case.get('stop')) and case['stop']['kind'] == 'startup'
+        if tf or startup_stop:
+            factory = builder.factory
+            prev_new = factory.new
+
+            def new(name, *a, **k):
+                obj = prev_new(name, *a, **k)
+                if name == 'URLTable' and startup_stop:
+                    app.stop()          # a stop request while the start-up pipeline is running
+                if name == 'URLTable' and tf:
+                    inner = obj.check_out
+                    count = {'n': 0}
+
+                    def check_out(*aa, **kk):
+                        count['n'] += 1
+                        if count['n'] == tf['k']:
+                            info['table_raised'] += 1
+                            raise make_exception(tf['exc'])
+                        return inner(*aa, **kk)
+                    obj.check_out = check_out
+                return obj
+            factory.new = new
+
+    def on_request(entry):
+        st = case.get('stop')
+        if st and st['kind'] == 'request' and entry['n'] + 1 == st['k'] and 'app' in holder:
+            holder['app'].stop()
+
+    extra = ['-r', '--no-robots']
+    if case.get('convert_links'):
+        extra.append('--convert-links')
+    st = case.get('stop')
+    if st and st['kind'] == 'quota':
+        extra += ['--quota', str(st['bytes'])]
+    site = app_site(case['pages'], case['fanout'])
+    saved = os.dup(2)
+    devnull = os.open(os.devnull, os.O_WRONLY)
+    try:
+        os.dup2(devnull, 2)             # wpull logs the fatal exception of a failing run to the console
+        res = appsim.run_crawl(['http://a.test/'], site, seed=case['seed'], concurrent=case['conc'], extra=extra,
+                               on_request=on_request, on_app=on_app, max_steps=400000)
+    finally:
+        os.dup2(saved, 2)
+        os.close(saved)
+        os.close(devnull)
+    return {'events': events, 'pipelines': info['pipelines'], 'table_raised': info['table_raised'],
+            'stopped': info['stop_calls'] > 0, 'exit': res.exit_code, 'hung': res.hung, 'error': res.error,
+            'requests': len(res.requests), 'rows': res.rows}
+
+
+def app_oracle(ctx, case, r):
+    pipes = r['pipelines'] or []
+    # the skippable table, read from the built application
+    got = [(s, sk) for (s, sk, _) in pipes]
+    for ix, (s, sk) in enumerate(got):
+        if s != 'AppSource' and not sk:
+            ctx.fail('work-after-stop', 'Builder.pipelines', case,
+                     'pipeline %d (source %s, tasks %r) takes new work items but is not flagged skippable: '
+                     'Application.run() starts it after a stop request' % (ix, s, pipes[ix][2]))
+    if r['hung']:
+        ctx.fail('hang', 'application', case, 'Application.run() did not complete (loop ran dry)')
+        return
+    ev = r['events']
+    if ('stop',) in ev:
+        at = ev.index(('stop',))
+        for e in ev[at + 1:]:
+            if e[0] == 'item' and got[e[1]][0] != 'AppSource':
+                ctx.fail('work-after-stop', 'Application.run', case,
+                         'after Application.stop() pipeline %d (source %s) took a new work item' % (e[1], got[e[1]][0]))
+                break
+    if r['table_raised']:
+        if r['exit'] == 0 and not r['error']:
+            ctx.fail('error-swallowed', 'URLItemSource.get_item', case,
+                     'URLTable.check_out raised %s but Application.run() finished with exit status 0 (%d of the rows '
+                     'not done)' % (case['table_fail']['exc'], len([x for x in r['rows'] if x['status'] not in ('done', 'skipped')])))
+    elif not r['stopped'] and not case.get('stop'):
+        left = [x['url'] for x in r['rows'] if x['status'] in ('todo', 'in_progress')]
+        if r['exit'] != 0 or left:
+            ctx.fail('item-lost', 'application', case, 'exit status %r, unprocessed rows %r' % (r['exit'], left[:5]))
+
+
+def app_case(ctx, case):
+    r = run_app(case)
+    app_oracle(ctx, case, r)
+    got = [(s, sk) for (s, sk, _) in (r['pipelines'] or [])]
+    if got != EXPECTED_PIPELINES:
+        ctx.disagree('app-pipelines', case, EXPECTED_PIPELINES, got)
+    # Application.run against the model `appRun` (with the flags read from the built application)
+    ev = r['events']
+    begins = [e[1] for e in ev if e[0] == 'begin']
+    sd = '-'
+    if ('stop',) in ev:
+        before = [e[1] for e in ev[:ev.index(('stop',))] if e[0] == 'begin']
+        sd = str(before[-1]) if before else '-'
+    fi = str(begins[-1]) if (r['exit'] not in (0, None) and r['table_raised']) else '-'
+    if not r['hung'] and got:
+        spec = '.'.join(('h' if s == 'AppSource' else 'w') + ('s' if sk else 'n') for s, sk in got)
+        rep = ctx.model.ask(['pipeline app %s %s %s' % (spec, sd, fi)])[0]
+        real = '.'.join(str(b) for b in begins)
+        if rep != real:
+            ctx.disagree('app-run', dict(case, spec=spec, stop_during=sd, fail_in=fi), rep, real)
+    tags = ['app:exit=%s' % r['exit'], 'app:convert' if case.get('convert_links') else 'app:no-convert']
+    if ('stop',) in r['events']:
+        tags.append('app:stopped-by-' + case['stop']['kind'])
+        at = r['events'].index(('stop',))
+        tags.append('app:stop-during-pipeline-%d' % max([e[1] for e in r['events'][:at] if e[0] == 'begin'] + [0]))
+    if r['table_raised']:
+        tags.append('app:check_out-raised-' + case['table_fail']['exc'])
+    ctx.case(('app', json.dumps(case, sort_keys=True)), nontrivial=r['requests'] > 0, tags=tags)
+    return r
+
+
+def app_stream(ctx, rng, count):
+    for ix in range(count):
+        pages = rng.choice([2, 3, 4, 6])
+        case = {'stream': 'app', 'pages': pages, 'fanout': rng.choice([1, 2, 3]), 'conc': rng.choice([1, 2, 3]),
+                'seed': rng.randrange(1 << 20), 'convert_links': rng.random() < 0.75, 'stop': None, 'table_fail': None}
+        kind = ix % 5
+        if kind == 4:
+            case['stop'] = {'kind': 'startup'}
+        elif kind == 0:
+            case['stop'] = {'kind': 'request', 'k': rng.randrange(1, pages + 1)}
+        elif kind == 1:
+            case['stop'] = {'kind': 'quota', 'bytes': rng.choice([1, 60, 150, 400])}
+        elif kind == 2:
+            case['table_fail'] = {'k': rng.randrange(1, pages + 3), 'exc': rng.choice(SOURCE_EXCEPTIONS)}
+        r = app_case(ctx, case)
+        if ix < 2:
+            ctx.sample(dict(case, exit=r['exit'], pipelines=[(s, sk) for (s, sk, _) in (r['pipelines'] or [])]))
+
+
 # ------------------------------------------------------------------ entry points
 def stop_with_item_queued(res):
     """Was stop() called in a state with an item in the queue and at least one item inside a task?"""
@@ -852,11 +1107,15 @@ def replay(ctx, case, kind=None, where=None):
         res = run_free(case)
         oracle(ctx, case, res)
         return
-    base = {kk: case[kk] for kk in ('n', 'k', 'conc', 'src_fail')}
+    if case.get('stream') == 'app':
+        app_case(ctx, case)
+        return
+    base = {kk: case[kk] for kk in ('n', 'k', 'conc', 'src_fail', 'url_source') if kk in case}
     import random
     res = run_real(case['n'], case['k'], case['conc'], case['src_fail'], list(case['actions']),
                    rng=random.Random(case.get('then_seed', 0)), cont=case.get('then'),
-                   cont_inj={'unpause': False} if case.get('no_resume') else None)
+                   cont_inj={'unpause': False} if case.get('no_resume') else None,
+                   url_source=case.get('url_source'))
     check_cases(ctx, [(base, res)], tags=['replay'])
 
 
@@ -887,6 +1146,13 @@ def run(ctx):
     ctx.tag('pause:task-raised-while-paused', len([1 for c, r in pf if failed_while_paused(r['actions'])]))
     ctx.tag('pause:ended-paused-without-resume',
             len([1 for c, r in pf if r['main'] == 'p' and not r['enabled']]))
+    # the REAL URLItemSource as the pipeline's source (check_out failures must surface)
+    us = gen_url_source(ctx, ctx.subrng('url-source'), ctx.scale(500, 5000))
+    check_cases(ctx, us, tags=['url-source'])
+    ctx.tag('url-source:check_out-raised', len([1 for c, r in us if r['src_raised']]))
+    # the whole application: Builder-built pipeline series, Application.run(), stop by request hook / --quota,
+    # URLTable.check_out failures
+    app_stream(ctx, ctx.subrng('app'), ctx.scale(40, 400))
     # stop / source failure with every worker busy (concurrency up to 4) and an item queued; staggered finishes
     sb = gen_stop_busy(ctx, ctx.subrng('stop-busy'), ctx.scale(600, 6000))
     check_cases(ctx, sb, tags=['stop-busy-scenario'])
@@ -924,4 +1190,6 @@ def search(ctx):
     check_cases(ctx, gen_random(ctx, rng, ctx.scale(300, 1000)))
     check_cases(ctx, gen_pause_failure(ctx, rng, ctx.scale(100, 300)), tags=['pause-scenario'])
     check_cases(ctx, gen_stop_busy(ctx, rng, ctx.scale(100, 300)), tags=['stop-busy-scenario'])
+    check_cases(ctx, gen_url_source(ctx, rng, ctx.scale(100, 300)), tags=['url-source'])
+    app_stream(ctx, rng, ctx.scale(2, 5))
     free_run(ctx, rng, ctx.scale(100, 300))
